@@ -356,8 +356,17 @@ impl ProcfsHandle {
         let subpath = subpath.as_ref();
         let mut oflags = oflags.into();
 
+        // Drop any trailing /-es.
+        let (subpath, trailing_slash) = utils::path_strip_trailing_slash(subpath);
+        if trailing_slash {
+            // A trailing / implies we want O_DIRECTORY.
+            oflags.insert(OpenFlags::O_DIRECTORY);
+        }
+
         // The final component is opened directly (not through the resolver, which
-        // would refuse these), so refuse creation flags here as well.
+        // would refuse these), so refuse creation flags here as well. This must
+        // look at the flags we are going to use: O_TMPFILE contains O_DIRECTORY,
+        // so a trailing slash can complete it.
         if oflags.intersects(OpenFlags::O_CREAT | OpenFlags::O_EXCL)
             || oflags.contains(OpenFlags::O_TMPFILE)
         {
@@ -365,13 +374,6 @@ impl ProcfsHandle {
                 name: "flags".into(),
                 description: "procfs files cannot be opened with creation flags".into(),
             })?
-        }
-
-        // Drop any trailing /-es.
-        let (subpath, trailing_slash) = utils::path_strip_trailing_slash(subpath);
-        if trailing_slash {
-            // A trailing / implies we want O_DIRECTORY.
-            oflags.insert(OpenFlags::O_DIRECTORY);
         }
 
         // If the target is not a symlink, use an O_NOFOLLOW open. This defends
